@@ -1,0 +1,16 @@
+//go:build verif
+// +build verif
+
+package masswallet
+
+// Thin wrappers for the crash / fault engines of the verification harness (/verif, C06 and C18).
+
+// VerifStopGoroutines ends the follower and worker goroutines started by NtfnsHandler.Start
+// (Stop without closing the database) and re-arms the quit channel, so that the step-wise
+// hooks (VerifProcessBlock, VerifImportStep, VerifRemoveRun) keep working on this manager.
+func (w *WalletManager) VerifStopGoroutines() {
+	h := w.ntfnsHandler
+	close(h.quit)
+	h.quitWg.Wait()
+	h.quit = make(chan struct{})
+}
